@@ -230,7 +230,7 @@ func (w *World) verifyFunction(key string, fc *FuncContract, mode Mode) (res *Fu
 			continue
 		}
 		for _, g := range fc.Ghosts {
-			if g.Point == "at exit" {
+			if g.Point == "at exit" && f.modeOK(g) {
 				f.applyGhost(g, env, r.reach, r.st)
 			}
 		}
